@@ -85,7 +85,8 @@ def main(quiet=False):
         s = SymDT(z3.IntVal(to_us(t0)))
         s2 = s + datetime.timedelta(seconds=60, milliseconds=-1)
         n += 1
-        if from_us(core._model_value(z3.Model() if False else _m(ctx), s2._e)) != t0 + datetime.timedelta(
+        from .lin import value as _lv
+        if from_us(_lv(_m(ctx), s2._e)) != t0 + datetime.timedelta(
                 seconds=60, milliseconds=-1):
             bad.append(("dt add",))
     finally:
